@@ -302,6 +302,10 @@ def r5_format(w, kinds=None, min_count=0):
             k = kinds.get(a, "string")
             if k == "u32":
                 conv.append("dec_u32(%s).as_str()" % a)
+            elif k == "uuid":
+                conv.append("tempshim::uuid_string(%s).as_str()" % a)
+            elif k == "display":
+                conv.append("tempshim::display_string(%s).as_str()" % a)
             elif k == "str":
                 conv.append(a)
             else:
